@@ -54,13 +54,15 @@ def gen_cases(tier, seed):
                 nodes = np.arange(-11.0 + offset[ax_] * h, 11.0, h)
                 shells[0]["c"][ax_] = float(nodes[int(np.argmin(np.abs(nodes - shells[0]["c"][ax_])))])
             extra = ["centre-on-grid-node"]
-        cases.append({"shells": shells, "dm": dm, "offset": offset, "tier": tier,
+        mcen = [0.0, 0.0, 0.0] if i % 2 == 0 else [float(v) for v in rng.normal(size=3) * 0.8]  # moments about the origin / about a general point
+        extra = extra + ["moment-centre:" + ("origin" if i % 2 == 0 else "general")]
+        cases.append({"shells": shells, "dm": dm, "offset": offset, "tier": tier, "mcen": mcen,
                       "classes": ["lmax:%d" % max(ls), "nsh:%d" % nsh, "types:" + "".join(tp), dcls] + extra, "cost": ntot * (3 if tier == "thorough" else 1)})
     cases += bases.argrep_variants("C16", seed, tier, cases, 6, ok=lambda c: "shells" in c and c.get("kind") in (None, "whole", "kernel", "perm", "real"))  # constructor arguments in other in-memory representations
     return cases
 
 
-def grid_sums(shells, dm, h, offset, box=11.0, chunk=150000):
+def grid_sums(shells, dm, h, offset, box=11.0, chunk=150000, mcen=(0.0, 0.0, 0.0)):
     from gbasis.evals.density import evaluate_density, evaluate_posdef_kinetic_energy_density
     from gbasis.evals.eval import evaluate_basis
     from gbasis.evals.eval_deriv import evaluate_deriv_basis
@@ -83,7 +85,8 @@ def grid_sums(shells, dm, h, offset, box=11.0, chunk=150000):
         npts += len(pts)
         phi = evaluate_basis(basis, pts)
         S = phi @ phi.T if S is None else S + phi @ phi.T
-        mo = np.stack([(phi * (pts[:, 0] ** o[0] * pts[:, 1] ** o[1] * pts[:, 2] ** o[2])[None, :]) @ phi.T for o in mord], axis=2)
+        rel = pts - np.array(mcen, dtype=float)[None, :]
+        mo = np.stack([(phi * (rel[:, 0] ** o[0] * rel[:, 1] ** o[1] * rel[:, 2] ** o[2])[None, :]) @ phi.T for o in mord], axis=2)
         Mo = mo if Mo is None else Mo + mo
         t = 0.0
         for k in range(3):
@@ -109,22 +112,23 @@ def run_case(case):
     evals = 0
     S = cm.call(overlap_integral, cm.build(shells))
     T = cm.call(kinetic_energy_integral, cm.build(shells))
-    M = cm.call(moment_integral, cm.build(shells), np.zeros(3), np.array(MORD))
+    mcen = np.array(case.get("mcen", [0.0, 0.0, 0.0]), dtype=float)
+    M = cm.call(moment_integral, cm.build(shells), mcen.copy(), np.array(MORD))
     for x, w in ((S, "overlap_integral"), (T, "kinetic_energy_integral"), (M, "moment_integral")):
         if isinstance(x, cm.Raised):
             viols.append(cm.unexpected(x, w))
     if viols:
         return {"evals": 3, "nontrivial": True, "classes": case["classes"], "errs": errs, "violations": viols}
     try:
-        fine = grid_sums(shells, dm, 0.20 if tier == "quick" else 0.16, case["offset"])
-        coarse = grid_sums(shells, dm, 0.20, case["offset"][::-1]) if tier == "thorough" else None
+        fine = grid_sums(shells, dm, 0.20 if tier == "quick" else 0.16, case["offset"], mcen=mcen)
+        coarse = grid_sums(shells, dm, 0.20, case["offset"][::-1], mcen=mcen) if tier == "thorough" else None
     except Exception as exc:  # noqa: BLE001 -- an evaluation function raised on a plain grid
         out = cm.Raised(exc)
         viols.append(cm.unexpected(out, "grid evaluation"))
         return {"evals": 3, "nontrivial": True, "classes": case["classes"], "errs": errs, "violations": viols}
     tdiag = np.abs(np.diag(T))
     sT = np.sqrt(np.outer(tdiag, tdiag)) + 1e-300
-    m2 = np.abs(np.einsum("iik->ik", cm.call(moment_integral, cm.build(shells), np.zeros(3), 2 * np.array(MORD))))
+    m2 = np.abs(np.einsum("iik->ik", cm.call(moment_integral, cm.build(shells), mcen.copy(), 2 * np.array(MORD))))
     sM = np.sqrt(np.sqrt(m2[:, None, :] * m2[None, :, :])) + 1e-300
     trS = float(np.sum(dm * S))
     trT = float(np.sum(dm * T))
